@@ -55,8 +55,8 @@ def always_raises(stmts):
     return False
 
 
-def run(ctx):
-    chk = Check('C17', ctx)
+def run(ctx, host=None):
+    chk = host.sub('C17') if host is not None else Check('C17', ctx)
     prog, K, E = ctx.prog, ctx.kinds, ctx.effects
     R2 = chk.rule('C17.R2', 'no handler swallows a generic I/O / database error around a mutating effect (table of allowed idioms)', 20)
     R3 = chk.rule('C17.R3', 'pack/loose/repack invariants of C05 also hold along exception paths; no row staged/tracked for an interrupted object', 7)
